@@ -838,8 +838,15 @@ class BeliefPropagation(Inference):
         Daphne Koller and Nir Friedman.
         """
         # Initialize clique beliefs as well as sepset beliefs
+        # A clique may carry several factors: its initial belief is their product.
         self.clique_beliefs = {
-            clique: self.junction_tree.get_factors(clique)
+            clique: factor_product(
+                *[
+                    factor
+                    for factor in self.junction_tree.get_factors()
+                    if set(factor.scope()) == set(clique)
+                ]
+            )
             for clique in self.junction_tree.nodes()
         }
         self.sepset_beliefs = {
